@@ -75,6 +75,10 @@ func (w *hostileWorld) Gen(seed uint64, tier string) *Plan {
 		first = 1
 	}
 	for id := first; id < n; id++ {
+		if r.P(1, 60) {
+			p.Ops = append(p.Ops, Op{ID: id, N: "NestedContainers", A: []int{r.Intn(100)}})
+			continue
+		}
 		switch r.Weighted(30, 6, 3, 1) {
 		case 0:
 			p.Ops = append(p.Ops, s.GenHostile(r, id))
@@ -131,6 +135,8 @@ func (w *hostileWorld) Exec(p *Plan, st *RunStats) *Violation {
 				loadVariant(s, op.A[0], op.B)
 			case op.N == "Fresh":
 				s = s.Fresh()
+			case op.N == "NestedContainers":
+				nestedProbe(op.A[0])
 			case op.X == 9:
 				inert.V = nil
 				s.Step(op, inert)
